@@ -174,6 +174,68 @@ Proof.
   rewrite HA. apply in_or_app. left. exact Hin.
 Qed.
 
+(* ------------------------------------------------------------------ the end of the output *)
+(* the text is empty, or a single line feed, or ends in a byte that is neither blank nor line feed, followed by at most one
+   line feed: no blank lines and no blanks at the end *)
+Definition end_ok (t : list Z) : Prop :=
+  t = [] \/ t = [NL] \/ exists a c, is_sp_nl c = false /\ (t = a ++ [c] \/ t = a ++ [c; NL]).
+
+Lemma not_sp_nl c : c <> SP -> c <> NL -> is_sp_nl c = false.
+Proof. intros H1 H2. unfold is_sp_nl. apply orb_false_iff. split; apply Z.eqb_neq; assumption. Qed.
+
+(* a non-empty run at the end of a tiling up to the end of the list: no earlier run reaches the end *)
+Lemma tiling_no_end_run A s ind e t r q : tiling ts q (A ++ [Trivia s ind e (t :: r)]) len -> no_end A.
+Proof.
+  intros Ht s1 ind1 r1 Hin. apply in_split in Hin. destruct Hin as (A1 & A2 & ->).
+  rewrite <- app_assoc in Ht. cbn [app] in Ht.
+  destruct (tiling_app_inv _ _ _ _ Ht) as (m & _ & Ht2). inversion Ht2; subst.
+  match goal with He : true = (_ =? _) |- _ => symmetry in He; apply Z.eqb_eq in He; rename He into Hend end.
+  match goal with Hr : tiling ts (s1 + zlen r1) (A2 ++ _) len |- _ => destruct (tiling_app_inv _ _ _ _ Hr) as (m2 & Ha & Hb) end.
+  apply tiling_mono in Ha. inversion Hb; subst. match goal with Hc : tiling ts _ [] len |- _ => apply tiling_mono in Hc end.
+  rewrite zlen_cons in *. pose proof (zlen_nonneg r). lia.
+Qed.
+
+Lemma separated_prefix A B : separated (A ++ B) -> separated A.
+Proof. intros H A1 s ind e t r B1 E. apply (H A1 s ind e t r (B1 ++ B)). rewrite E, <- app_assoc. reflexivity. Qed.
+
+Lemma codes_ok_prefix A B : codes_ok (A ++ B) -> codes_ok A.
+Proof. intros H i text Hin. apply (H i text). apply in_or_app. left. exact Hin. Qed.
+
+Lemma chunks_end_ok w cs : forall q, separated cs -> codes_ok cs -> tiling ts q cs len -> end_ok (chunks_text (fmt_spaces w) cs).
+Proof.
+  induction cs as [|c cs IH] using rev_ind; intros q Hsep Hok Ht; [left; reflexivity|].
+  rewrite chunks_text_app, chunks_text_one. destruct (tiling_app_inv _ _ _ _ Ht) as (m & Ht1 & Ht2).
+  destruct c as [s ind e [|t r] | i text]; cbn [chunk_text].
+  - rewrite fmt_spaces_nil, app_nil_r.
+    assert (m = len) by (inversion Ht2; subst; match goal with H : tiling ts _ [] _ |- _ => inversion H; subst end; change (zlen (@nil token)) with 0; lia).
+    subst m. exact (IH q (separated_prefix _ _ Hsep) (codes_ok_prefix _ _ Hok) Ht1).
+  - assert (He : e = true).
+    { inversion Ht2; subst. match goal with H : tiling ts _ [] _ |- _ => inversion H; subst end. lia. }
+    subst e. pose proof (tiling_no_end_run cs s ind true t r q Ht) as Hne.
+    assert (Hb : after_trivia false cs = false) by (apply (Hsep cs s ind true t r []); reflexivity).
+    destruct (chunk_lines_inv w (cs ++ [Trivia s ind true (t :: r)]) Hsep Hok cs [Trivia s ind true (t :: r)] eq_refl Hne) as [Ha _].
+    cbv zeta in Ha. specialize (Ha Hb). unfold fmt_spaces at 2.
+    destruct (fmt_run_end (mk_fcfg (s =? 0) true w ind) (run_code (t :: r)) eq_refl) as [E | [E | (a & c & Hc & [E | E])]]; rewrite E.
+    + rewrite app_nil_r. destruct Ha as [Ha | (t' & c & Et & Hc1 & Hc2)]; [left; exact Ha|].
+      right. right. exists t', c. split; [apply not_sp_nl; assumption | left; exact Et].
+    + destruct Ha as [Ha | (t' & c & Et & Hc1 & Hc2)]; [rewrite Ha; right; left; reflexivity|].
+      right. right. exists t', c. split; [apply not_sp_nl; assumption|]. right. rewrite Et, <- app_assoc. reflexivity.
+    + right. right. exists (chunks_text (fmt_spaces w) cs ++ a), c. split; [exact Hc|]. left. rewrite <- app_assoc. reflexivity.
+    + right. right. exists (chunks_text (fmt_spaces w) cs ++ a), c. split; [exact Hc|]. right. rewrite <- app_assoc. reflexivity.
+  - destruct (Hok i text) as [_ (t' & c & Et & Hc1 & Hc2)]; [apply in_or_app; right; left; reflexivity|].
+    right. right. exists (chunks_text (fmt_spaces w) cs ++ t'), c. split; [apply not_sp_nl; assumption|]. left. rewrite Et, app_assoc. reflexivity.
+Qed.
+
+(* no blank lines and no blanks at the end of the formatted program *)
+Theorem program_end w root e :
+  lua_parse ts = Ok (root, e) -> consumed ts e = true -> writable ts root = true -> codes_tidy ts = true ->
+  exists out, writer_text (fmt_spaces w) ts (view root) = Ok out /\ end_ok out.
+Proof.
+  intros Hp Hc Hw Ht. destruct (program_chunks root e Hp Hc Hw Ht) as (cs & Hcs & _ & Htil & Hsep & Hok & _).
+  exists (chunks_text (fmt_spaces w) cs). split; [unfold writer_text; rewrite Hcs; reflexivity|].
+  exact (chunks_end_ok w cs 0 Hsep Hok Htil).
+Qed.
+
 End L.
 
 (* ------------------------------------------------------------------ the nesting counter is the reference depth *)
